@@ -468,3 +468,67 @@ def r9_recursive_components(ctx):
 
 
 RULES += [r9_recursive_components]
+
+
+def r10_component_dag_edges(ctx):
+    ctx.rule("C10.r10", "scc_graph: EVERY call-graph edge u -> d between two different components becomes an edge of the component DAG "
+             "(the bottom-up / top-down orders are topological orders of that DAG): the loop over the out-edges is never left early, "
+             "an iteration is skipped only when the two components are equal, and every other iteration reaches add_edge", floor=1)
+    SG = "include/crab/analysis/graphs/sccg.hpp"
+    fs = [f for f in ctx.db.fns(SG) if f.get("ctor") and (f.get("cpk") or "").endswith("scc_graph") and f.get("body")]
+    if not ctx.need(fs, "scc_graph constructor"):
+        return
+    seen = set()
+    n = 0
+    for fn in fs:
+        if fn["line"] in seen:
+            continue
+        seen.add(fn["line"])
+        body = fn["body"]
+        for loop in [l for l in walk(body) if l.get("k") == "rangefor" and any(is_call(c, name="out_edges") for c in walk(l.get("r")))]:
+            lb = loop.get("b")
+            adds = [c for c in walk(lb) if is_call(c, name="add_edge")]
+            if not adds:
+                continue
+            n += 1
+            g = paths.guards(lb)
+            early = [x for x in walk(lb, into_lambdas=False) if x.get("k") in ("break", "ret", "goto")]
+            inner_loops = [l for l in walk(lb) if l.get("k") in ("for", "while", "rangefor", "do")]
+            early = [x for x in early if not any(x is y for l in inner_loops for y in walk(l.get("b")))]
+            if early:
+                ctx.bad("scc_graph: the loop over the out-edges of a call-graph node is left early (`%s`): the remaining out-edges of the node "
+                        "are never added to the component DAG, e.g. f -> f (same component) listed before f -> g hides SCC(f) -> SCC(g) and g "
+                        "can be analysed top-down before its caller f" % early[0].get("k"), fn, early[0], sig="sccg-edge-loop-left-early")
+                continue
+
+            def same_comp(c):
+                p = cmp_parts(c)
+                if p and p[0] in ("==", "!=") and all(any(is_field(y, "m_comp_map") for y in walk(z)) for z in (p[1], p[2])):
+                    return 1 if p[0] == "==" else -1
+                return 0
+            okc = True
+            for x in [x for x in walk(lb, into_lambdas=False) if x.get("k") == "continue"]:
+                if guard_truth(g.get(id(x), ()), same_comp, lb) is not True:
+                    ctx.bad("scc_graph: an out-edge is skipped (`continue`) although the two components are not known to be equal", fn, x,
+                            sig="sccg-edge-skipped")
+                    okc = False
+            # on a branch where the two components are known to be equal no edge is needed
+            fl = paths.MustEvents(lambda x: ("edge",) if is_call(x, name="add_edge") else (),
+                                  refine=lambda cond, pol: ("edge",) if atom_truth(cond, pol, same_comp, lb) is True else ())
+            fl.record_after = True
+            try:
+                fl.run({"k": "seq", "b": [loop]})
+            except paths.Unstructured:
+                ctx.undecided("scc_graph: edge loop with unstructured control flow", fn, loop)
+                continue
+            end = fl.after.get(id(lb))
+            if end is not None and "edge" not in end:
+                ctx.bad("scc_graph: an iteration over an out-edge between different components can end without add_edge", fn, loop,
+                        sig="sccg-edge-not-added")
+            elif okc:
+                ctx.ok("every inter-component call-graph edge reaches add_edge", fn, adds[0])
+    if n == 0:
+        ctx.fail("rule C10.r10: the edge loop of the scc_graph constructor was not found")
+
+
+RULES += [r10_component_dag_edges]
